@@ -114,3 +114,42 @@ def str_to_int(s):
     return int(s)
 def size(x):
     return len(x)
+
+
+# ---- native-only helpers (PyVC has its own symbolic versions)
+import struct as _struct
+
+
+def d_absent():
+    return None
+
+
+def f32_bits(x):
+    return _struct.unpack("<I", _struct.pack("<f", x))[0]
+
+
+def f64_bits(x):
+    return _struct.unpack("<Q", _struct.pack("<d", x))[0]
+
+
+def of_f32_bits(w):
+    return _struct.unpack("<f", _struct.pack("<I", w))[0]
+
+
+def of_f64_bits(w):
+    return _struct.unpack("<d", _struct.pack("<Q", w))[0]
+
+
+def is_f32(x):
+    try:
+        return of_f32_bits(f32_bits(x)) == x or x != x
+    except (OverflowError, _struct.error):
+        return False
+
+
+def bytes_of_bits(s):
+    """the canonical packing of a bit sequence (the unique b with Rep(b, s))"""
+    out = []
+    for q in range((len(s) + 7) // 8):
+        out.append(sum((s[8 * q + i] if 8 * q + i < len(s) else 0) << i for i in range(8)))
+    return out
